@@ -33,10 +33,16 @@ type c11ncfg struct {
 	Gain     complex128
 	Ratio    float32
 	Token    string
+	// tags written in capitals on two levels
+	Store c11store `dials:"DB"`
+}
+
+type c11store struct {
+	Host string `dials:"HOST"`
 }
 
 func HarnessC11Names() {
-	all := []string{"USER_IDS", "HTTP_PORT", "MAX_QPS", "LABELS", "BACKEND_ALLOWED_IPS", "USER_ID", "CITIES", "GAIN", "TIER", "CAFÉ_URL", "RATIO", "TOKEN", "MENÜ_ID_KEY"}
+	all := []string{"USER_IDS", "HTTP_PORT", "MAX_QPS", "LABELS", "BACKEND_ALLOWED_IPS", "USER_ID", "CITIES", "GAIN", "TIER", "CAFÉ_URL", "RATIO", "TOKEN", "MENÜ_ID_KEY", "DB_HOST", "DBHOST"}
 	decoys := []string{"L", "MENÜID_KEY", "MENÜ_IDKEY", "CAF_URL", "CAFÉURL", "CAFÉ_U_R_L", "USER_I_DS", "USER_ID_S", "USERIDS", "HTTPPORT", "H_T_T_P_PORT", "MAX_Q_P_S", "MAXQPS", "BACKEND_ALLOWED_I_PS", "ALLOWED_IPS"}
 	clear := func() {
 		for _, n := range all {
@@ -92,6 +98,10 @@ func HarnessC11Names() {
 	zzverif.Setenv("GAIN", "0.1+0.2i")
 	zzverif.Setenv("RATIO", "3.4028235e+38") // the largest float32, as strconv prints it
 	zzverif.Setenv("TOKEN", "c2VjcmV0==")    // a value containing '='
+	hStore := zzverif.Bool("has_store")
+	if hStore {
+		zzverif.Setenv("DB_HOST", "dbh")
+	}
 
 	t := dials.NewType(ptrify.Pointerify(reflect.TypeOf(c11ncfg{}), reflect.Value{}))
 	val, err := (&Source{}).Value(context.Background(), t)
@@ -135,6 +145,13 @@ func HarnessC11Names() {
 	zzverif.Assert(!g.IsNil() && g.Elem().Complex() == complex(0.1, 0.2), "C11 GAIN: a complex128 leaf does not hold the parsed value (parts rounded to float32?)")
 	zzverif.Assert(!f("Ratio").IsNil() && float32(f("Ratio").Elem().Float()) == 3.4028235e+38, "C11 RATIO: the largest float32 value was rejected or changed")
 	zzverif.Assert(!f("Token").IsNil() && f("Token").Elem().String() == "c2VjcmV0==", "C11 TOKEN: a value containing '=' did not arrive as written")
+	// the documented name is the UPPER_SNAKE_CASE join of the tags along the path: DB_HOST
+	storeOK := f("Store").IsNil() == !hStore
+	if hStore && !f("Store").IsNil() {
+		h := f("Store").Elem().FieldByName("Host")
+		storeOK = !h.IsNil() && h.Elem().String() == "dbh"
+	}
+	zzverif.AssertUnlessKnown(storeOK, "C11 DB_HOST (capitalised tags on two levels): leaf unset although its variable is present, or set although absent", "c11-allcaps-tags", true)
 	lb := f("Labels")
 	zzverif.Assert(lb.IsNil() == (hLabels == 0), "C11 LABELS: map set/unset wrongly")
 	if hLabels != 0 && !lb.IsNil() {
